@@ -513,6 +513,9 @@ func genContact(r *hx.Rand, u *uniSpec) *contactSpec {
 	if len(c.Groups) > 1 && r.Bool() {
 		c.Groups[0], c.Groups[len(c.Groups)-1] = c.Groups[len(c.Groups)-1], c.Groups[0]
 	}
+	if len(c.Groups) > 0 && r.Chance(1, 15) { // a reference repeated in the stored contact
+		c.Groups = append(c.Groups, hx.Pick(r, c.Groups))
+	}
 	for _, f := range fieldDefs {
 		if r.Chance(2, 5) {
 			raw := hx.Pick(r, fieldRaws[f.Key])
